@@ -6,6 +6,7 @@ import (
 	"strconv"
 	"strings"
 	"sync"
+	"sync/atomic"
 	"time"
 )
 
@@ -54,6 +55,14 @@ func (f *fixedReader) Read(p []byte) (int, error) {
 		time.Sleep(f.delay)
 	}
 	if f.pos >= len(f.steps) {
+		if atomic.LoadInt32(&failedReadsInCall) >= spinLimit {
+			// the recorded call was cut off by the spin detection (scriptReader.Read): its source went on failing
+			select {
+			case spinCh <- struct{}{}:
+			default:
+			}
+			select {}
+		}
 		b := f.fill.bytes(len(p))
 		copy(p, b)
 		emit(Event{"op": "Read", "asked": len(p), "gave": len(p), "bytes": ints(b), "errkind": ""})
@@ -76,6 +85,11 @@ func (f *fixedReader) Read(p []byte) (int, error) {
 		panic("verif: injected panic inside the source's Read")
 	}
 	err := errOfKind(kind)
+	if err != nil && len(b) == 0 {
+		atomic.AddInt32(&failedReadsInCall, 1)
+	} else {
+		atomic.StoreInt32(&failedReadsInCall, 0)
+	}
 	emit(Event{"op": "Read", "asked": len(p), "gave": len(b), "bytes": ints(b), "errkind": kind})
 	return len(b), err
 }
